@@ -23,8 +23,8 @@ Definition nonregress_prefix : list N := [46; 46; 47]%N.
 (* render_rate: float arithmetic, truncated *)
 Definition rate_is_integer : bool := false.
 
-(* render_suite: column pointer not bounded *)
-Definition walk_is_bounded : bool := false.
+(* render_suite: column pointer bounded by the number of invocations *)
+Definition walk_is_bounded : bool := true.
 
 Definition cvsweb_prefix : list N := [104; 116; 116; 112; 115; 58; 47; 47; 99; 118; 115; 119; 101; 98; 46; 111; 112; 101; 110; 98; 115; 100; 46; 111; 114; 103; 47; 99; 103; 105; 45; 98; 105; 110; 47; 99; 118; 115; 119; 101; 98; 47; 115; 114; 99; 47; 114; 101; 103; 114; 101; 115; 115; 47]%N.   (* https://cvsweb.openbsd.org/cgi-bin/cvsweb/src/regress/ *)
 Definition name_attic : list N := [97; 116; 116; 105; 99]%N.   (* attic *)
@@ -36,4 +36,3 @@ Definition name_index : list N := [105; 110; 100; 101; 120; 46; 104; 116; 109; 1
 Definition name_step_csv : list N := [115; 116; 101; 112; 46; 99; 115; 118]%N.   (* step.csv *)
 Definition name_tag_cvs : list N := [99; 118; 115]%N.   (* cvs *)
 Definition patch_prefix : list N := [115; 114; 99; 46; 100; 105; 102; 102; 46]%N.   (* src.diff.* *)
-
